@@ -1209,3 +1209,321 @@ Example ex_quiescent :
   quiescentb s = true /\ loading s = false /\ value s = Some 1000%Z /\
   awaiters s = [ADone 1000%Z] /\ dlog s = [Some 0%Z; Some 1000%Z; Some 1000%Z].
 Proof. vm_compute. auto. Qed.
+
+(** * where values come from *)
+(** futures keep their result, completed ones stay completed; every new legitimate value is the
+    result of a completed future *)
+Record lstep (s s' : node) : Prop := {
+  ls_futs : forall f fu, nth_error (futs s) f = Some fu ->
+            exists fu', nth_error (futs s') f = Some fu' /\ f_res fu' = f_res fu /\
+                        (f_done fu = true -> f_done fu' = true);
+  ls_legit : forall v, In v (legit s') ->
+             In v (legit s) \/ exists f fu, nth_error (futs s') f = Some fu /\ f_done fu = true /\ f_res fu = v
+}.
+
+Lemma lstep_same s x : futs x = futs s -> legit x = legit s -> lstep s x.
+Proof. intros E1 E2. constructor; rewrite ?E1, ?E2; eauto. Qed.
+Lemma lstep_refl s : lstep s s. Proof. apply lstep_same; reflexivity. Qed.
+Lemma lstep_trans a b d : lstep a b -> lstep b d -> lstep a d.
+Proof.
+  intros [F1 L1] [F2 L2]. constructor.
+  - intros f fu Hf. destruct (F1 f fu Hf) as (fu1 & H1 & R1 & D1). destruct (F2 f fu1 H1) as (fu2 & H2 & R2 & D2).
+    exists fu2. repeat split; auto; congruence.
+  - intros v Hv. destruct (L2 v Hv) as [H|H]; [|right; exact H].
+    destruct (L1 v H) as [H'|(f & fu & Hf & Hd & Hr)]; [left; exact H'|]. right.
+    destruct (F2 f fu Hf) as (fu2 & H2 & R2 & D2). exists f, fu2. repeat split; auto; congruence.
+Qed.
+Lemma lstep_agree s x : agree s x -> lstep s x.
+Proof. intros A. apply lstep_same; [exact (ag_futs _ _ A)|exact (ag_legit _ _ A)]. Qed.
+
+Lemma lstep_store s f fu : nth_error (futs s) f = Some fu -> f_done fu = true ->
+  lstep s (set_task TIdle (store (f_res fu) s)).
+Proof.
+  intros Hf Hd. unfold store.
+  set (s1 := set_legit (f_res fu :: legit s) (set_manual false (set_value (Some (f_res fu)) s))).
+  destruct (notify_subs_fields s1) as (_ & _ & _ & _ & _ & _ & _ & _ & _ & _ & _ & _ & _ & _ & E15 & _ & _ & E18).
+  constructor; sf; rewrite ?E15, ?E18; unfold s1; sf; eauto.
+  intros v [<-|Hv]; [right; eauto|left; exact Hv].
+Qed.
+
+Lemma lstep_create c s : lstep s (snd (create_fut c s)).
+Proof.
+  unfold create_fut. cbn [snd].
+  assert (A : agree s (read_all c s)).
+  { unfold read_all.
+    assert (H : forall js s0, agree s s0 -> agree s (fold_left (fun s j => snd (check_src c false j s)) js s0)).
+    { induction js as [|j js IH]; intros s0 A0; cbn [fold_left]; [exact A0|]. apply IH.
+      eapply agree_trans; [exact A0|]. rewrite check_src_false.
+      assert (Hf : forall ks s1, agree s0 s1 -> agree s0 (fold_left (fun s k => snd (refresh c k s)) ks s1)).
+      { induction ks as [|k ks IHk]; intros s1 A1; cbn [fold_left]; [exact A1|]. apply IHk.
+        eapply agree_trans; [exact A1|]. unfold refresh. cbn [snd].
+        set (x := set_seen _ s1). assert (Ax : agree s1 x) by (apply agree_set_seen, length_upd).
+        destruct (shape c) as [|[|[|n]]]; try exact Ax. destruct k as [|[|k]]; try exact Ax.
+        destruct (negb _); [|exact Ax]. eapply agree_trans; [exact Ax|apply agree_notify]. }
+      set (s1 := fold_left _ (pulls c j) s0). assert (A1 : agree s0 s1) by (apply Hf, agree_refl).
+      eapply agree_trans; [exact A1|]. unfold refresh. cbn [snd].
+      set (x := set_seen _ s1). assert (Ax : agree s1 x) by (apply agree_set_seen, length_upd).
+      destruct (shape c) as [|[|[|n]]]; try exact Ax. destruct j as [|[|j]]; try exact Ax.
+      destruct (negb _); [|exact Ax]. eapply agree_trans; [exact Ax|apply agree_notify]. }
+    apply H, agree_refl. }
+  set (r := read_all c s) in *. clearbody r.
+  constructor; sf.
+  - intros f fu Hf. rewrite <- (ag_futs _ _ A) in Hf. exists fu. repeat split; auto.
+    rewrite nth_error_app1; [exact Hf|]. apply nth_error_Some. congruence.
+  - intros v Hv. left. rewrite <- (ag_legit _ _ A). exact Hv.
+Qed.
+
+Lemma lstep_drop s i : lstep s (set_init_fut None (set_futs (upd i (fun fu => mkFut (f_res fu) (f_done fu) false) (futs s)) s)).
+Proof.
+  constructor; sf; [|auto].
+  intros f fu Hf. rewrite nth_error_upd. destruct (f =? i)%nat; rewrite Hf; cbn; eauto.
+Qed.
+
+Lemma lstep_started fid s : lstep s (started fid s).
+Proof. apply lstep_same; reflexivity. Qed.
+
+Lemma n_loop_lstep c fuel : gc c -> forall s, INV c true s -> lstep s (n_loop c fuel s).
+Proof.
+  intros G. induction fuel as [|f IH]; intros s I; cbn [n_loop]; [apply lstep_same; reflexivity|].
+  destruct (task s) as [|fid v] eqn:Ht.
+  - set (s1 := set_rx_reg true s).
+    assert (I1 : INV c true s1) by (apply inv_set_rx; exact I).
+    change (flag s1) with (flag s). destruct (flag s) eqn:Hfl; [|apply lstep_same; reflexivity].
+    set (s2 := set_flag false s1).
+    assert (I2 : INV c false s2) by (apply (inv_set_flag_off c true); exact I1).
+    assert (L02 : lstep s s2) by (apply lstep_same; reflexivity).
+    destruct (n_update_own c false s2 G I2) as (A3 & _ & Hd3 & Hu).
+    pose proof (n_loop_inv c f G) as Hinv.
+    destruct (n_update c true s2) as [u s3]. cbn [fst snd] in *.
+    assert (L03 : lstep s s3) by (eapply lstep_trans; [exact L02|apply lstep_agree; exact A3]).
+    assert (Ht3 : task s3 = TIdle) by (rewrite (ag_task _ _ A3); exact Ht).
+    assert (Hprov3 : forall v, value s3 = Some v -> In v (legit s3)).
+    { intros v. rewrite (ag_value _ _ A3), (ag_legit _ _ A3). exact (i_prov c false s2 I2 v). }
+    assert (Hlen3 : length (seen s3) = length (curvals c s3)).
+    { rewrite (agree_len_seen _ _ A3), (agree_curvals c _ _ A3). exact (i_len c false s2 I2). }
+    destruct u.
+    + cbn [orb andb]. destruct G as (G1 & G2 & Gd). rewrite Gd.
+      set (sd := match init_fut s3 with
+                 | Some i => set_init_fut None (set_futs (upd i (fun fu => mkFut (f_res fu) (f_done fu) false) (futs s3)) s3)
+                 | None => s3 end).
+      assert (L3d : lstep s3 sd) by (unfold sd; destruct (init_fut s3); [apply lstep_drop|apply lstep_refl]).
+      assert (Hsd : init_fut sd = None /\ value sd = value s3 /\ legit sd = legit s3 /\ seen sd = seen s3 /\
+                    st_dirty sd = st_dirty s3 /\ curvals c sd = curvals c s3).
+      { unfold sd. destruct (init_fut s3) eqn:Hi; sf; repeat split; auto. }
+      destruct Hsd as (Hi & Hv & Hl & Hs & Hdd & Hc). rewrite Hi.
+      pose proof (inv_start_create c sd) as Hst. pose proof (lstep_create c sd) as Lc.
+      destruct (create_fut c sd) as [fid s4]. cbn [fst snd] in Hst, Lc.
+      assert (I4 : INV c true (started fid s4)).
+      { apply Hst; try congruence. intros v. rewrite Hv, Hl. apply Hprov3. }
+      eapply lstep_trans; [exact L03|]. eapply lstep_trans; [exact L3d|]. eapply lstep_trans; [exact Lc|].
+      eapply lstep_trans; [apply lstep_started|]. apply IH. exact I4.
+    + destruct (Hu eq_refl) as (I3 & Hs3 & _). cbn [orb andb].
+      assert (G' : gc c) by exact G.
+      destruct (first_run s3) eqn:Hfr.
+      * destruct (init_fut s3) as [i|] eqn:Hi.
+        -- eapply lstep_trans; [exact L03|]. eapply lstep_trans; [|apply IH; apply (inv_start_init c s3 i I3 Ht3 Hi Hd3 Hs3)].
+           apply lstep_same; reflexivity.
+        -- pose proof (inv_start_create c s3 Hprov3 Hlen3 Hd3 Hi) as Hst. pose proof (lstep_create c s3) as Lc.
+           destruct (create_fut c s3) as [fid s4]. cbn [fst snd] in Hst, Lc.
+           eapply lstep_trans; [exact L03|]. eapply lstep_trans; [exact Lc|].
+           eapply lstep_trans; [apply lstep_started|]. apply IH. exact Hst.
+      * eapply lstep_trans; [exact L03|]. apply IH. apply inv_strengthen; auto.
+  - destruct (nth_error (futs s) fid) as [fu|] eqn:Hf; [|apply lstep_refl].
+    destruct (f_done fu) eqn:Hdone; [|apply lstep_refl].
+    rewrite <- (i_ser c true s I fid v Ht), Nat.eqb_refl.
+    eapply lstep_trans; [apply (lstep_store s fid fu Hf Hdone)|]. apply IH. eapply inv_store; eauto.
+Qed.
+
+Lemma lstep_same_core s x : same_core s x -> lstep s x.
+Proof. intros S. apply lstep_agree. exact (sc_agree _ _ S). Qed.
+
+Lemma n_poll_lstep c s : gc c -> INV c true s -> lstep s (n_poll c s).
+Proof.
+  intros G I. unfold n_poll. destruct (woken s); [|apply lstep_refl].
+  assert (I1 : INV c true (set_woken false s)) by (apply inv_set_woken; exact I).
+  assert (L1 : lstep s (set_woken false s)) by (apply lstep_same; reflexivity).
+  change (polled (set_woken false s)) with (polled s). destruct (polled s).
+  { eapply lstep_trans; [exact L1|apply n_loop_lstep; auto]. }
+  (* same case analysis as in [n_poll_ok] *)
+  pose proof (n_poll_ok c s G I) as Hok. unfold n_poll in Hok.
+  assert (I2 : INV c true (set_polled true (set_woken false s))).
+  { destruct I1. constructor; sf; auto. }
+  assert (L2 : lstep s (set_polled true (set_woken false s))) by (apply lstep_same; reflexivity).
+  change (st_dirty (set_polled true (set_woken false s))) with (st_dirty s).
+  destruct (st_dirty s). 2: { eapply lstep_trans; [exact L2|apply n_loop_lstep; auto]. }
+  change (init_fut (set_polled true (set_woken false s))) with (init_fut s).
+  destruct (init_fut s) as [i|] eqn:Hi. 2: { eapply lstep_trans; [exact L2|apply n_loop_lstep; auto]. }
+  destruct (i_init c true s I i Hi) as (Hfr & _).
+  assert (Ht : task s = TIdle).
+  { destruct (task s) as [|f v] eqn:Ht; [reflexivity|].
+    destruct (i_A c true s I f v Ht) as (Hfr' & _). congruence. }
+  set (s3 := set_init_fut None (set_futs _ (set_polled true (set_woken false s)))).
+  assert (I3 : INV c true s3).
+  { destruct I2. constructor; unfold s3; sf; auto.
+    - intros f v H. rewrite Ht in H. discriminate.
+    - discriminate. }
+  eapply lstep_trans; [exact L2|]. eapply lstep_trans; [apply lstep_drop|]. apply n_loop_lstep; auto.
+Qed.
+
+Lemma d_poll_lstep c s : gc c -> INV c true s -> WK s -> lstep s (d_poll c s).
+Proof.
+  intros G I W. unfold d_poll. destruct (d_woken s); [|apply lstep_refl].
+  assert (H : forall fuel x, INV c true x -> WK x -> lstep x (d_loop c fuel x)).
+  { induction fuel as [|f IH]; intros x Ix Wx; cbn [d_loop]; [apply lstep_refl|].
+    assert (S1 : same_core x (set_d_reg true x)) by sc_tac.
+    change (d_set (set_d_reg true x)) with (d_set x). destruct (d_set x); [|apply lstep_same_core, S1].
+    set (x2 := set_d_set false (set_d_reg true x)).
+    assert (S2 : same_core x x2) by sc_tac.
+    assert (I2 : INV c true x2) by (eapply inv_same_core; eauto).
+    assert (W2 : WK x2) by (eapply wk_same_core; eauto).
+    destruct (d_update_ok c x2 G I2 W2) as (I3 & W3).
+    assert (L23 : lstep x2 (snd (d_update c x2))).
+    { unfold d_update. destruct (d_dirty x2); [apply lstep_same; reflexivity|].
+      destruct (negb (d_sub x2)); [apply lstep_refl|].
+      destruct (n_update_other c true x2 G I2) as (_ & _ & A).
+      destruct (n_update c false x2) as [a y]. cbn [snd] in *.
+      assert (Ly : lstep x2 y) by (apply lstep_agree; exact A).
+      destruct a; [eapply lstep_trans; [exact Ly|apply lstep_same; reflexivity]|].
+      destruct (dep c =? 2)%nat; [|eapply lstep_trans; [exact Ly|apply lstep_same; reflexivity]].
+      destruct (negb _); cbn [snd]; (eapply lstep_trans; [exact Ly|]).
+      - apply lstep_same; unfold d_mark_dirty, d_notify; sf; destruct (d_reg _); reflexivity.
+      - apply lstep_same; reflexivity. }
+    destruct (d_update c x2) as [u x3]. cbn [snd] in *.
+    eapply lstep_trans; [apply lstep_same_core, S2|]. eapply lstep_trans; [exact L23|].
+    destruct (u || d_first x3).
+    - set (x4 := d_body c (set_d_first false x3)).
+      assert (S4 : same_core x3 x4) by (eapply same_core_trans; [|apply sc_d_body]; sc_tac).
+      eapply lstep_trans; [apply lstep_same_core, S4|].
+      apply IH; [eapply inv_same_core; eauto|eapply wk_same_core; eauto].
+    - apply IH; auto. }
+  assert (S0 : same_core s (set_d_woken false s)) by sc_tac.
+  eapply lstep_trans; [apply lstep_same_core, S0|].
+  apply H; [eapply inv_same_core; eauto|eapply wk_same_core; eauto].
+Qed.
+
+Lemma complete_lstep f s : lstep s (complete f s).
+Proof.
+  unfold complete. destruct (nth_error (futs s) f) as [fu|] eqn:Hf; [|apply lstep_refl].
+  destruct (f_done fu || negb (f_alive fu)); [apply lstep_refl|].
+  set (s1 := set_futs (upd f (fun fu => mkFut (f_res fu) true (f_alive fu)) (futs s)) s).
+  assert (L1 : lstep s s1).
+  { constructor; unfold s1; sf; [|auto]. intros g fg Hg. rewrite nth_error_upd.
+    destruct (g =? f)%nat; rewrite Hg; cbn; eauto. }
+  destruct (task s1) as [|g v]; [exact L1|]. destruct (g =? f)%nat; [|exact L1].
+  eapply lstep_trans; [exact L1|apply lstep_same; reflexivity].
+Qed.
+
+(** every step other than a manual write *)
+Lemma step_lstep c s ev : gc c -> INV c true s -> WK s ->
+  (forall v, ev <> ManualSet v) -> lstep s (step c s ev).
+Proof.
+  intros G I W Hnm. destruct ev as [i v| |v| |f|t|picks| |a]; cbn [step].
+  - unfold write_marks. set (s1 := set_sigs _ s).
+    assert (L1 : lstep s s1) by (apply lstep_same; reflexivity).
+    set (s2 := match shape c, i with
+               | O, O | O, 1%nat => n_mark_dirty s1 | 1%nat, O | 1%nat, 1%nat => n_mark_check s1
+               | 2%nat, O => n_mark_check s1 | S (S (S _)), O => n_mark_check s1 | _, _ => s1 end).
+    assert (L2 : lstep s1 s2).
+    { unfold s2. destruct (shape c) as [|[|[|n]]]; destruct i as [|[|i]];
+        try apply lstep_refl; try (apply lstep_agree, agree_mark_dirty); apply lstep_agree, agree_notify. }
+    eapply lstep_trans; [exact L1|]. eapply lstep_trans; [exact L2|].
+    destruct (_ && _ && _); [apply lstep_same_core, sc_d_notify|apply lstep_refl].
+  - set (s1 := set_refetch_n _ s). assert (L1 : lstep s s1) by (apply lstep_same; reflexivity).
+    destruct (shape c) as [|[|[|n]]]; try exact L1.
+    eapply lstep_trans; [exact L1|apply lstep_agree, agree_notify].
+  - exfalso. exact (Hnm v eq_refl).
+  - destruct (notify_subs_fields s) as (_ & _ & _ & _ & _ & _ & _ & _ & _ & _ & _ & _ & _ & _ & E15 & _ & _ & E18).
+    apply lstep_same; assumption.
+  - apply complete_lstep.
+  - unfold poll_task. destruct t as [|[|t]]; [apply n_poll_lstep; auto| |apply lstep_refl].
+    destruct (0 <? dep c)%nat; [apply d_poll_lstep; auto|apply lstep_refl].
+  - assert (H : forall fuel pk x, INV c true x -> WK x -> lstep x (run_all c fuel pk x)).
+    { induction fuel as [|f IH]; intros pk x Ix Wx; cbn [run_all]; [apply lstep_refl|].
+      destruct (ready c x) as [|r0 r]; [apply lstep_refl|].
+      set (t := nth _ (r0 :: r) 0%nat).
+      destruct (poll_task_ok c t x G Ix Wx) as (I1 & W1).
+      eapply lstep_trans; [|apply IH; eauto].
+      unfold poll_task. destruct t as [|[|t]]; [apply n_poll_lstep; auto| |apply lstep_refl].
+      destruct (0 <? dep c)%nat; [apply d_poll_lstep; auto|apply lstep_refl]. }
+    apply H; auto.
+  - apply lstep_same; reflexivity.
+  - unfold poll_awaiter. destruct (nth_error (awaiters s) a) as [[w|v|]|]; try apply lstep_refl.
+    destruct (loading s); apply lstep_same; reflexivity.
+Qed.
+
+Lemma manual_legit c s v :
+  futs (step c s (ManualSet v)) = futs s /\ legit (step c s (ManualSet v)) = v :: legit s.
+Proof.
+  cbn [step]. set (s1 := set_legit _ _).
+  destruct (notify_subs_fields s1) as (_ & _ & _ & _ & _ & _ & _ & _ & _ & _ & _ & _ & _ & _ & E15 & _ & _ & E18).
+  rewrite E15, E18. split; reflexivity.
+Qed.
+
+Definition is_manual (ev : event) : option Z := match ev with ManualSet v => Some v | _ => None end.
+
+Lemma step_futs_mono c s ev : gc c -> INV c true s -> WK s ->
+  forall f fu, nth_error (futs s) f = Some fu ->
+  exists fu1, nth_error (futs (step c s ev) ) f = Some fu1 /\ f_res fu1 = f_res fu /\
+              (f_done fu = true -> f_done fu1 = true).
+Proof.
+  intros G I W f fu Hf. destruct (is_manual ev) as [x|] eqn:Hm.
+  - destruct ev; try discriminate. rewrite (proj1 (manual_legit c s v)). eauto.
+  - assert (Hnm : forall v, ev <> ManualSet v) by (intros v ->; discriminate).
+    exact (ls_futs _ _ (step_lstep c s ev G I W Hnm) f fu Hf).
+Qed.
+
+Lemma step_legit c s ev : gc c -> INV c true s -> WK s ->
+  forall v, In v (legit (step c s ev)) ->
+  In v (legit s) \/ ev = ManualSet v \/
+  exists f fu, nth_error (futs (step c s ev)) f = Some fu /\ f_done fu = true /\ f_res fu = v.
+Proof.
+  intros G I W v Hin. destruct (is_manual ev) as [x|] eqn:Hm.
+  - destruct ev; try discriminate. rewrite (proj2 (manual_legit c s v0)) in Hin.
+    destruct Hin as [<-|Hin]; auto.
+  - assert (Hnm : forall v, ev <> ManualSet v) by (intros v' ->; discriminate).
+    destruct (ls_legit _ _ (step_lstep c s ev G I W Hnm) v Hin) as [H|H]; auto.
+Qed.
+
+Lemma init_legit c initial :
+  legit (init c initial) = match initial with Some v => [v] | None => [] end.
+Proof.
+  destruct c as [sh dp h o d ff].
+  destruct sh as [|[|[|n]]]; destruct initial as [v0|]; destruct dp as [|dp]; reflexivity.
+Qed.
+
+(** nothing fabricated: every value the node ever regards as legitimate — in particular every
+    value a synchronous read returns — is the initial value, a manually written one, or the
+    result of a fetch future that has completed *)
+Theorem value_origin : forall c initial evs, gc c ->
+  let s := run c initial evs in
+  forall v, value s = Some v ->
+  initial = Some v \/ In (ManualSet v) evs \/
+  exists f fu, nth_error (futs s) f = Some fu /\ f_done fu = true /\ f_res fu = v.
+Proof.
+  intros c initial evs G s v Hv.
+  assert (Hl : In v (legit s)) by (apply (sync_read_is_previous_or_none c initial evs G); exact Hv).
+  clear Hv. unfold s, run in *.
+  (* completed futures of an intermediate state persist to the end *)
+  assert (Hmono : forall evs1 s1, INV c true s1 /\ WK s1 -> forall f fu, nth_error (futs s1) f = Some fu ->
+            f_done fu = true -> exists fu', nth_error (futs (fold_left (step c) evs1 s1)) f = Some fu' /\
+                                            f_done fu' = true /\ f_res fu' = f_res fu).
+  { induction evs1 as [|e1 evs1 IH1]; intros s1 [I1 W1] f fu Hf Hd; cbn [fold_left]; [eauto|].
+    assert (IW : INV c true (step c s1 e1) /\ WK (step c s1 e1)) by (apply step_ok; auto).
+    destruct (step_futs_mono c s1 e1 G I1 W1 f fu Hf) as (fu1 & H1 & R1 & D1).
+    destruct (IH1 _ IW f fu1 H1 (D1 Hd)) as (fu' & H' & D' & R'). exists fu'. repeat split; auto; congruence. }
+  assert (H : forall evs0 s0, INV c true s0 /\ WK s0 ->
+            forall v, In v (legit (fold_left (step c) evs0 s0)) ->
+            In v (legit s0) \/ In (ManualSet v) evs0 \/
+            exists f fu, nth_error (futs (fold_left (step c) evs0 s0)) f = Some fu /\ f_done fu = true /\ f_res fu = v).
+  { induction evs0 as [|ev evs0 IH]; intros s0 [I0 W0] v0 Hin; cbn [fold_left] in *; [auto|].
+    assert (IW1 : INV c true (step c s0 ev) /\ WK (step c s0 ev)) by (apply step_ok; auto).
+    destruct (IH _ IW1 v0 Hin) as [H1|[H1|H1]]; [|right; left; right; exact H1|right; right; exact H1].
+    destruct (step_legit c s0 ev G I0 W0 v0 H1) as [H2|[H2|(f & fu & Hf & Hd & Hr)]].
+    - left. exact H2.
+    - right. left. left. exact H2.
+    - destruct (Hmono evs0 _ IW1 f fu Hf Hd) as (fu' & H' & D' & R'). right. right. exists f, fu'.
+      repeat split; auto; congruence. }
+  destruct (H evs (init c initial) (init_ok c initial) v Hl) as [H0|H0]; [|right; exact H0].
+  left. rewrite init_legit in H0. destruct initial as [v0|]; [|destruct H0].
+  destruct H0 as [<-|[]]. reflexivity.
+Qed.
